@@ -71,6 +71,14 @@ Example ex_slice :
   block_get ex [(Abody, Some 0)] Abody 1 3 2 = Err IndexError.
 Proof. repeat split. Qed.
 
+(* API level: a slice that selects no statement is an invalid cursor (lift_cursor, /repo "a block cursor
+   whose statements were all deleted must forward to an invalid cursor") *)
+Example ex_api_slice_empty :
+  api_slice [(Abody, Some 0)] Abody 0 4 (Some 2%Z) (Some 2%Z) = Err InvalidCursorError /\
+  api_slice [(Abody, Some 0)] Abody 0 4 (Some 3%Z) (Some 1%Z) = Err InvalidCursorError /\
+  api_slice [(Abody, Some 0)] Abody 0 4 (Some 1%Z) None = Ok (CBlock [(Abody, Some 0)] Abody 1 4).
+Proof. repeat split. Qed.
+
 (* ---- matching ---- *)
 Definition pat_B : list pstmt := [PAssign "B" [PE_Hole] PE_Hole].                  (* B[_] = _ *)
 Definition pat_seq : list pstmt := [PS_Hole; PAssign "w" [] PE_Hole; PS_Hole].     (* _ ; w = _ ; _ *)
